@@ -6,7 +6,7 @@
     client side with ANY batch splitter that keeps the sequence), Engine.IO control packets sent
     concurrently, the peer's parser, one dispatch goroutine per finished packet.
     "For all schedules" = for every state reachable by any sequence of actions. *)
-From SioV Require Import Base.Conc Sio.Pipeline Sio.PipelineProofs Sio.PipelineCheck Sio.PipelineInst Sio.PipelineConn Sio.PipelineConnProofs Sio.PipelineRecv Sio.PipelineRecvProofs.
+From SioV Require Import Base.Conc Sio.Pipeline Sio.PipelineProofs Sio.PipelineCheck Sio.PipelineInst Sio.PipelineConn Sio.PipelineConnProofs Sio.PipelineRecv Sio.PipelineRecvProofs Sio.PipelineUpgrade Sio.PipelineUpgradeProofs.
 
 (** (a) ON THE WIRE.  Whatever the schedule, the MESSAGE frames the peer has been handed are a
     prefix of [flat_map frames_of ps] where [ps] is an interleaving AT PACKET GRANULARITY of
@@ -236,6 +236,34 @@ Theorem C02_recv_single_frame_calls_refuted :
   let s := exec (rstep decl 0) [0; 1; 0] (rinit recv_witness_streams) in
   r_finished s <> [] /\ ~ In (mkSP 10 [11]) (r_finished s) /\ ~ In (mkSP 20 [21]) (r_finished s).
 Proof. exact recv_single_frame_calls_refuted. Qed.
+
+(** (e) ACROSS THE UPGRADE (Sio/PipelineUpgrade.v, server side): the transport changes from polling
+    to websocket while emitters, drainer and control packets keep running; the packets parked in the
+    polling transport are handed over to the websocket in ONE step (upgradeTo holds transportMu for
+    swap and hand-over; every Send holds it shared for its whole transport.Send).  For all schedules -
+    events emitted before, during and after the upgrade - wire order / frame contiguity and
+    reassembly hold exactly as on a settled transport. *)
+Theorem C02_upgrade_wire_order :
+  forall (data : Type) (declared : data -> option nat) (max_atts : nat)
+         (split : list (frame data) -> list (list (frame data))),
+    (forall b, concat (split b) = b) ->
+  forall (progs : list (list (spacket data))) (u : ustate data),
+    ureachable declared max_atts split progs u ->
+    exists order ps rest,
+      pops progs order = Some (ps, st_em (u_base u)) /\
+      msgs (st_wire (u_base u)) ++ rest = flat_map frames_of ps.
+Proof. exact (@upgrade_wire_order). Qed.
+
+Theorem C02_upgrade_reassembly :
+  forall (data : Type) (declared : data -> option nat) (max_atts : nat)
+         (split : list (frame data) -> list (list (frame data))),
+    (forall b, concat (split b) = b) ->
+  forall (progs : list (list (spacket data))),
+    Forall (Forall (wf_packet declared max_atts)) progs ->
+  forall u, ureachable declared max_atts split progs u ->
+    st_rerr (u_base u) = false /\
+    exists k, st_finished (u_base u) = firstn k (map snd (st_log (u_base u))).
+Proof. exact (@upgrade_reassembly). Qed.
 
 (** The instance for the real long-polling batcher (Eio/Batcher.v, C13): it keeps the sequence. *)
 Theorem C02_real_batcher_keeps_sequence :
